@@ -115,3 +115,11 @@ reg("C16",
     "the counter must equal a union-find reference on generated substrates/subsets/k; clique call histories with "
     "repeated and permuted neighbour values must stay exact. " + EXPL,
     "reference recurrence cross-checked by brute force for n<=5 (quick) / 6 in the same run")
+
+reg("C17",
+    "property-based testing (Hypothesis) against an independent reference fixed-point solver; metamorphic monotonicity; differential check shared object vs. fresh object over query histories",
+    "theoretical(phi) is compared (1e-6) with a reference solver built from the motif list (own membership tables, "
+    "brute-force motif expectation, Jacobi sweeps from 0.5) wherever that converges within iterations/4 sweeps; "
+    "bounds, S(0)=0, monotonicity in phi at every iteration count and equality with a fresh object after any query "
+    "history are asserted on every generated network. " + EXPL,
+    "fixed-point clause only away from slow-convergence points; networks up to 11 (quick) / 15 vertices")
